@@ -672,7 +672,31 @@ def r03_14(chk):
     chk.floor("R03.14", 2, "Aligned and IndelMap")
 
 
+def r03_15(chk):
+    chk.rule("R03.15", "taking and omitting the same index list are complementary: in take_positions the negate branch compares positions 0..len-1 with the caller's indices only after these were normalised (modulo / plus the length) -- the taking branch resolves a negative index through sequence indexing, so a raw membership test against range(len(seq)) never omits the column that -1 takes")
+    m = chk.repo.module(ALN)
+    fn = m.func("AlignmentI.take_positions")
+    ps = [p for p in params_of(fn) if p not in ("self", "negate")]
+    if not ps:
+        raise AnalysisError("AlignmentI.take_positions: index parameter not found")
+    cols = ps[0]
+    branch = [i for i in walk_no_nested(fn) if isinstance(i, ast.If) and norm(i.test) == "negate"]
+    if not branch:
+        raise AnalysisError("AlignmentI.take_positions: `if negate:` branch not found")
+    body = ast.Module(body=branch[0].body, type_ignores=[])
+    from ..defuse import assignments
+
+    lookups = [(tg, v) for tg, v, _ in assignments(body) if cols in {x.id for x in ast.walk(v) if isinstance(x, ast.Name)}]
+    if not lookups:
+        raise AnalysisError("AlignmentI.take_positions: the omit-lookup built from the indices was not found")
+    for tg, v in lookups:
+        normalised = any(isinstance(x, ast.BinOp) and isinstance(x.op, (ast.Mod, ast.Add)) for x in ast.walk(v)) or any(isinstance(x, ast.Call) and call_name(x) in ("range", "numpy.arange") for x in ast.walk(v))
+        chk.decide(normalised, "R03.15", key(m, "AlignmentI.take_positions", "omitted indices normalised"), m.loc(v), f"`{norm(v)[:70]}`", f"`{norm(v)[:70]}` keeps the indices as given: a negative index is never equal to a position in range(len(seq)), so take_positions([-1], negate=True) omits nothing while take_positions([-1]) selects the last column")
+    chk.floor("R03.15", 1, "the negate branch")
+
+
 def run(chk):
+    r03_15(chk)
     r03_14(chk)
     r03_13(chk)
     r03_12(chk)
